@@ -49,52 +49,74 @@ pub fn decode_nat<R>(r: &mut R) -> Result<u128>
 where
     R: io::Read + ?Sized,
 {
-    let mut result = 0;
-    let mut shift = 0;
+    let mut result: u128 = 0;
+    let mut shift: u32 = 0;
     loop {
         let mut buf = [0];
         r.read_exact(&mut buf)?;
-        if shift == 127 && buf[0] != 0x00 && buf[0] != 0x01 {
+        let low_bits = (buf[0] & !CONTINUATION_BIT) as u128;
+        // Whatever part of this group lies at or above bit 128 must be zero. Groups start at
+        // bits 0, 7, .., 126, 133, ..: the group at bit 126 straddles the boundary, and
+        // padded encodings may continue with zero groups beyond it.
+        let fits = if shift >= 128 {
+            low_bits == 0
+        } else if shift + 7 > 128 {
+            low_bits >> (128 - shift) == 0
+        } else {
+            true
+        };
+        if !fits {
             while buf[0] & CONTINUATION_BIT != 0 {
                 r.read_exact(&mut buf)?;
             }
             return Err(Error::msg("nat overflow"));
         }
-        let low_bits = (buf[0] & !CONTINUATION_BIT) as u128;
-        result |= low_bits << shift;
+        if shift < 128 {
+            result |= low_bits << shift;
+        }
         if buf[0] & CONTINUATION_BIT == 0 {
             return Ok(result);
         }
-        shift += 7;
+        shift = shift.saturating_add(7);
     }
 }
 pub fn decode_int<R>(r: &mut R) -> Result<i128>
 where
     R: io::Read + ?Sized,
 {
-    let mut result = 0;
-    let mut shift = 0;
-    let size = 128;
-    let mut byte;
+    let mut result: u128 = 0;
+    let mut shift: u32 = 0;
     loop {
         let mut buf = [0];
         r.read_exact(&mut buf)?;
-        byte = buf[0];
-        if shift == 127 && byte != 0x00 && byte != 0x7f {
+        let byte = buf[0];
+        let low_bits = (byte & !CONTINUATION_BIT) as u128;
+        let fits = if shift + 7 <= 128 {
+            result |= low_bits << shift;
+            true
+        } else if shift < 128 {
+            // The group straddles bit 128: its low bits are stored, and every higher bit
+            // of the group must repeat the sign bit (bit 127).
+            let keep = 128 - shift;
+            result |= (low_bits & ((1 << keep) - 1)) << shift;
+            let rest = low_bits >> (keep - 1);
+            rest == 0 || rest == (0x7f >> (keep - 1))
+        } else {
+            // beyond bit 128 only sign extension is allowed
+            low_bits == if result >> 127 == 1 { 0x7f } else { 0 }
+        };
+        if !fits {
             while buf[0] & CONTINUATION_BIT != 0 {
                 r.read_exact(&mut buf)?;
             }
             return Err(Error::msg("int overflow"));
         }
-        let low_bits = (byte & !CONTINUATION_BIT) as i128;
-        result |= low_bits << shift;
-        shift += 7;
+        shift = shift.saturating_add(7);
         if byte & CONTINUATION_BIT == 0 {
-            break;
+            if shift < 128 && (byte & SIGN_BIT) == SIGN_BIT {
+                result |= !0u128 << shift;
+            }
+            return Ok(result as i128);
         }
     }
-    if shift < size && (byte & SIGN_BIT) == SIGN_BIT {
-        result |= !0 << shift;
-    }
-    Ok(result)
 }
